@@ -223,9 +223,16 @@ def run(prop, tier, seed):
         co = [rng.choice([1.0, 2.0, -1.0]) for _ in range(3)]
         g = (lambda co: lambda P: np.sin(co[0] * P[0]) + np.cos(co[1] * P[1]) + 0.3 * co[2] * P[0] * P[1])(co)
 
-        def residual(t, x_hat, gamma, pc=pc, g=g):
+        xr = {"lo": 0.0, "hi": 0.0}
+
+        def residual(t, x_hat, gamma, pc=pc, g=g, xr=xr):
             t = np.asarray(t, float)
-            X = gamma(np.asarray(x_hat, float))
+            xh = np.asarray(x_hat, float)
+            # a residual is a function on the parametrisation [0, L] x [0, T] (the driver's own residual decides element
+            # membership from x_hat): remember the range it is asked for
+            if xh.size:
+                xr["lo"], xr["hi"] = min(xr["lo"], float(xh.min())), max(xr["hi"], float(xh.max()))
+            X = gamma(xh)
             return sum(c * t ** k for k, c in enumerate(pc)) * g(X)
         ref = reference(rc, lay, mesh, pc, g)
         with SeminormRecorder() as srx:
@@ -251,6 +258,9 @@ def run(prop, tier, seed):
             recs.append({"cls": "shortcut:" + name, "dev": max(jd.dev(ser[i, 0], direct_tm[i], 1e-13 * abs(direct_tm[i])), jd.dev(ser[i, 1], direct_sp[i], 1e-13 * abs(direct_sp[i]))),
                          "elem": list(k), "curve": name})
         recs.append({"cls": "pool-bitwise:" + name, "ok": bool(np.array_equal(ser, pool) and np.array_equal(l2s, l2p)), "curve": name})
+        Lreal = float(mesh.gamma_space.gamma_length)
+        recs.append({"cls": "residual-asked-inside-parametrisation:" + name, "ok": bool(xr["lo"] >= -1e-9 and xr["hi"] <= Lreal + 1e-9), "curve": name,
+                     "range": [xr["lo"], xr["hi"]], "L": Lreal})
         # the element list in another order (the caller decides the order): same numbers per element
         perm = list(range(len(elems)))
         rng.shuffle(perm)
